@@ -9,6 +9,8 @@ CHECKS = {
          "Random editing sessions against the real Cli; dispatch compared with an independent reference tokenisation/classification of the line observed just before Enter; no exhaustive claim (session space is unbounded).", "6/C01"),
  "C02": ("exploration", "exhaustive enumeration of high-byte sequences + random malformed streams through the Cli, validity oracle and differential against std's UTF-8 decoder",
          "Exhaustive for all sequences of up to 3 bytes >= 0x80 (quick) / up to 4 bytes (thorough) at decoder level; sampled for whole-Cli streams.", "6/C02"),
+ "C03": ("exploration", "coverage-guided fuzzing (cargo-fuzz/libFuzzer + ASan, 16 processes) + random raw-byte sessions (proptest), invariant oracle inside the target, process isolation for aborts",
+         "Panics, aborts, failed unsafe preconditions (debug assertions on), arithmetic overflow (checks on), sanitizer reports and the explicit invariants behind every unchecked operation are searched for over raw byte sessions with all buffer sizes 0..=64; absence is not established.", "6/C03"),
  "C04": ("exploration", "exhaustive concatenation of boundary key units + random streams, differential against a byte-level reference decoder",
          "Exhaustive to depth 4 (quick) / 5 (thorough) units over 28 boundary units, which exceeds the decoder's memory depth (previous byte + CSI flag + up to 3 pending UTF-8 bytes); random beyond.", "6/C04"),
  "C05": ("exploration", "state-space closure of an ideal-editor model replayed on the real Editor + model-based random sessions",
@@ -33,13 +35,13 @@ CHECKS = {
          "Every write/flush call index of every corpus scenario is failed in turn in both modes, then the session continues on a repaired sink; generated sessions extend the corpus.", "6/C14"),
  "C15": ("exploration", "model-based PBT with an unflushed-byte counter in the sink (invariant after every call)",
          "Invariant over call histories; sampled sessions covering every output-producing path.", "6/C15"),
+ "C16": ("exploration", "configuration matrix: the runner is built for all 8 feature subsets; model-based PBT per build + metamorphic equality across builds",
+         "All 8 configurations are built and exercised on every run (exhaustive over configurations); sessions are sampled.", "6/C16"),
  "C17": ("exploration", "exhaustive enumeration of all Unicode scalar values, differential against std and round trip through the Cli",
          "All 1,112,031 scalar values are enumerated on every run (utils, decoder, and a full type/edit/submit/recall round trip); thorough adds all 25 neighbour contexts per scalar.", "6/C17"),
 }
 
 NOT_YET = {
- "C03": "check under construction (fuzz target + raw sessions); not yet registered",
- "C16": "check under construction (feature-matrix runner); not yet registered",
 }
 
 def main():
@@ -75,6 +77,12 @@ def main():
         "engines": [
             {"name": "vcheck", "path": "/verif/harness", "serves_properties": [c["property_id"] for c in checks],
              "kind_free_text": "Rust harness: proptest-driven and enumerative generators, reference models, terminal emulator, fault-injecting sink, 16 worker processes per check"},
+            {"name": "declgen", "path": "/verif/harness/vmodel/src/decl.rs", "serves_properties": ["C09", "C11", "C12"],
+             "kind_free_text": "generator of derive-macro declarations (Rust source + model) and interpreter of the model; generated crates are compiled with the repository's macros at check time"},
+            {"name": "libfuzzer", "path": "/verif/harness/fuzzhost/fuzz", "serves_properties": ["C03"],
+             "kind_free_text": "cargo-fuzz target `session` (libFuzzer + AddressSanitizer, nightly), oracle inside the target"},
+            {"name": "vsession", "path": "/verif/harness/vsession", "serves_properties": ["C16"],
+             "kind_free_text": "session trace server built once per subset of {history, autocomplete, help}"},
         ],
         "checks": checks,
         "not_applicable": na,
